@@ -70,7 +70,7 @@ theorem nodup_map_filter {α β : Type} (f : α → β) (p : α → Bool) (l : L
 
 theorem lwf_minus {L : Ledger} (hl : LWF L) (P : Nat → Bool) (Q : OutPoint → Bool) : LWF (minus L P Q) := by
   have hsub : ∀ p, p ∈ known (minus L P Q) → p ∈ known L := fun p => known_minus_sub
-  refine ⟨hl.heights, ?_, ?_, ?_, ?_, hl.noDouble, ?_, ?_, ?_, ?_⟩
+  refine ⟨hl.heights, ?_, ?_, ?_, ?_, hl.noDouble, ?_, ?_, ?_, ?_, hl.leaseKeys⟩
   · have : known (minus L P Q) = (known L).filter (fun p => p.2.isSome || !P p.1.hash) := by
       simp only [known, minus, List.filter_append, List.filter_map, chainTxs]
       congr 1
@@ -181,7 +181,7 @@ theorem good_eraseUC {a : Store} {La : Ledger} (hg : Good a La) {u : Tx} (hu : u
   refine ⟨?_, lwf_minus hg.lwf _ _, ?_⟩
   · exact wf2_of_sameMined (s := a) ⟨rfl, rfl, rfl, rfl, rfl, rfl⟩ (nodupKeys_erase _ _ hg.wf2.wf.nodupUC) hg.wf2
   · refine ⟨hr.blocks, hr.txrecs, ?_, ?_, hr.debits, ?_, ?_, hr.uinputsNE, hr.leases, hr.nodupTxrecs, hr.nodupUnmined,
-      hr.nodupDebits⟩
+      hr.nodupDebits, hr.nodupLocked⟩
     · intro h v
       show a.unmined.find? h = some v ↔ _
       rw [hr.unmined_iff, mem_expUnmined, minus_pool_false]
@@ -355,7 +355,8 @@ theorem good_dropTx {a : Store} {La : Ledger} (hg : Good a La) {u : Tx} (hu : u 
       simpa using this
   refine ⟨?_, lwf_minus hg.lwf _ _, ?_⟩
   · exact wf2_of_sameMined (s := a) ⟨rfl, rfl, rfl, rfl, rfl, rfl⟩ hg.wf2.wf.nodupUC hg.wf2
-  · refine ⟨hr.blocks, hr.txrecs, ?_, ?_, hr.debits, ?_, ?_, ?_, hr.leases, hr.nodupTxrecs, ?_, hr.nodupDebits⟩
+  · refine ⟨hr.blocks, hr.txrecs, ?_, ?_, hr.debits, ?_, ?_, ?_, hr.leases, hr.nodupTxrecs, ?_, hr.nodupDebits,
+      hr.nodupLocked⟩
     · intro h v
       show (a.unmined.erase u.hash).find? h = some v ↔ _
       rw [find?_erase, mem_expUnmined, hpool]
